@@ -11,3 +11,5 @@ pub assume_specification<'a, T: Copy> [std::option::Option::<&T>::copied] (o: st
 #[verifier::external_type_specification]
 #[verifier::external_body]
 pub struct ExIoError(std::io::Error);
+
+pub assume_specification<T> [core::mem::drop::<T>] (x: T);
